@@ -8,8 +8,8 @@ from collections import Counter
 import asyncstdlib as A
 
 from .. import gen
-from ..loop import CTX, drive
-from ..probes import FAULT_TYPES, SrcState, make_source, Item, Plan, FnState, make_fn
+from ..loop import CTX, drive, Suspend, Cancel, run_finalizers
+from ..probes import FAULT_TYPES, Injected, SrcState, make_source, Item, Plan, FnState, make_fn
 from ..tools import run_async_side, Fault, TOOLS, IMPLS
 
 ID = "C04"
@@ -29,7 +29,7 @@ ASSUMPTIONS = ["sources' own aclose never suspends or fails", "sync iterables ha
                "not be closed then, except for handles that advertise eager closing (chain, tee, groupby)"]
 EXHAUSTIVE = {"quick": False, "thorough": False}
 N_SPECS = {"quick": 12000, "thorough": 600000}
-SRC_FL = ["async_gen", "async_class", "async_class", "async_class_bare", "list"]
+SRC_FL = ["async_gen", "async_class", "async_class", "async_class_bare", "list", "async_class_proxy", "async_class_future"]
 EAGER = {"chain"}  # handles closing what they own even if never advanced (tee/groupby handled separately)
 
 
@@ -48,15 +48,17 @@ def cases(tier, seed, shard, nshards):
                 ops.append(["next", rng.randrange(nchild)] if r < 0.6 else ["close", rng.randrange(nchild)] if r < 0.9
                            else ["close_handle"])
             yield {"kind": "tee", "n": nchild, "len": rng.randint(0, maxlen), "ops": ops,
-                   "flav": rng.choice(["async_gen", "async_class"]), "final": rng.choice(["close_all", "close_handle", "none"])}
+                   "flav": rng.choice(["async_gen", "async_class", "async_class_proxy"]), "final": rng.choice(["close_all", "close_handle", "none"])}
         elif name == "groupby":
             ks = gen.keys_seq(rng, maxlen + 2, 2)
             ops = [rng.choice(["adv", "grp", "grp", "oldgrp"]) for _ in range(rng.randint(0, 6))]
-            yield {"kind": "groupby", "keys": ks, "ops": ops, "flav": rng.choice(["async_gen", "async_class"]),
-                   "key": rng.choice([None, "half", "async"])}
+            yield {"kind": "groupby", "keys": ks, "ops": ops, "flav": rng.choice(["async_gen", "async_class", "async_class_proxy"]),
+                   "key": rng.choice([None, "half", "async"]),
+                   "fault": rng.choice([None, None, ["src", rng.randint(1, len(ks) + 1)], ["key", rng.randint(1, len(ks) + 1)]]),
+                   "cancel": rng.random() < 0.35}
         elif name in gen.AGG_NAMES:
             spec = gen.agg_spec(rng, name, maxlen)
-            yield {"kind": "agg", "spec": spec, "flav": rng.choice(["async_gen", "async_class"]),
+            yield {"kind": "agg", "spec": spec, "flav": rng.choice(["async_gen", "async_class", "async_class_proxy"]),
                    "fnfl": rng.choice(["def", "async_def"]), "exc": rng.choice(list(FAULT_TYPES))}
         else:
             spec = gen.iter_spec(rng, name, maxlen)
@@ -98,7 +100,7 @@ def _leaks(side, spec, flavs, outer_flav):
         pairs = list(zip(srcs, fl))
     n_closable = 0
     for st, f in pairs:
-        if f not in ("async_gen", "async_class", "async_class_full"):
+        if f not in ("async_gen", "async_class", "async_class_full", "async_class_proxy", "async_class_future"):
             continue
         n_closable += 1
         if not st.released():
@@ -279,55 +281,100 @@ def run_tee(case, stats):
 # ---------------------------------------------------------------------------
 
 def run_groupby(case, stats):
-    CTX.reset()
+    """groupby closed after any prefix of use: also after its source or key failed, and after a cancelled advance."""
     keys = case["keys"]
-    st = SrcState(0, [Item(k, (0, i)) for i, k in enumerate(keys)], Plan(), log=False)
-    src = make_source(st, case["flav"])
+    fault = case.get("fault")
     viols = []
-    head = f"groupby keys={keys} key={case['key']} flav={case['flav']} ops={case['ops']}"
-    info = {}
+    head = f"groupby keys={keys} key={case['key']} flav={case['flav']} ops={case['ops']} fault={fault}"
 
-    async def main():
-        if case["key"] is None:
-            gb = A.groupby(src)
-        elif case["key"] == "async":
-            async def akey(x):
-                return x.key // 2
-            gb = A.groupby(src, key=akey)
-        else:
-            gb = A.groupby(src, key=IMPLS[case["key"]])
-        groups = []
-        for op in case["ops"]:
+    def one(susp=0, cancel_at=None):
+        CTX.reset()
+        plan = Plan(susp)
+        if fault and fault[0] == "src":
+            plan = Plan(susp, fault[1], Injected("groupby source"))
+        st = SrcState(0, [Item(k, (0, i)) for i, k in enumerate(keys)], plan, log=False)
+        src = make_source(st, case["flav"])
+        info = {"groups": 0, "raised": 0, "cancelled": False}
+        calls = {"n": 0}
+
+        def key_fault():
+            calls["n"] += 1
+            if fault and fault[0] == "key" and calls["n"] == fault[1]:
+                raise Injected("groupby key")
+
+        async def akey(x):
+            key_fault()
+            if susp:
+                await Suspend("key", susp)
+            return x.key // 2
+
+        def skey(x):
+            key_fault()
+            return IMPLS[case["key"]](x)
+
+        async def main():
+            if case["key"] is None:
+                gb = A.groupby(src)
+            elif case["key"] == "async":
+                gb = A.groupby(src, key=akey)
+            else:
+                gb = A.groupby(src, key=skey)
+            groups = []
             try:
-                if op == "adv":
-                    _, g = await gb.__anext__()
-                    groups.append(g)
-                elif op == "grp" and groups:
-                    await groups[-1].__anext__()
-                elif op == "oldgrp" and len(groups) > 1:
-                    await groups[0].__anext__()
-            except StopAsyncIteration:
-                pass
-        info["groups"] = len(groups)
-        try:
-            await gb.aclose()
-        except BaseException as exc:  # noqa: BLE001
-            kind = "unstarted" if not groups else "started"
-            viols.append({"key": f"groupby/aclose-raises-{kind}",
-                          "msg": f"{head}: aclose raised {type(exc).__name__}: {exc}"})
-            return
-        if not st.released():
-            viols.append({"key": "groupby/leak-on-close", "msg": f"{head}: source still open after groupby.aclose()"})
+                for op in case["ops"]:
+                    try:
+                        if op == "adv":
+                            _, g = await gb.__anext__()
+                            groups.append(g)
+                        elif op == "grp" and groups:
+                            await groups[-1].__anext__()
+                        elif op == "oldgrp" and len(groups) > 1:
+                            await groups[0].__anext__()
+                    except StopAsyncIteration:
+                        pass
+                    except Injected:
+                        info["raised"] += 1
+            except Cancel:
+                # the consumer's own cancellation handler: it still closes what it opened
+                info["cancelled"] = True
+            info["groups"] = len(groups)
+            try:
+                await gb.aclose()
+            except BaseException as exc:  # noqa: BLE001
+                kind = "unstarted" if not groups else "started"
+                viols.append({"key": f"groupby/aclose-raises-{kind}",
+                              "msg": f"{head} cancel_at={cancel_at}: aclose raised {type(exc).__name__}: {exc}"})
+                return
+            if not (st.released() or (st.faulted and st.gen is not None)):
+                how = "a cancelled advance and " if info["cancelled"] else "its source/key failed and " if info["raised"] else ""
+                key = "groupby/leak-on-close" + ("-after-cancel" if info["cancelled"] else "-after-fault" if info["raised"] else "")
+                viols.append({"key": key, "msg": f"{head} cancel_at={cancel_at}: source still open after {how}groupby.aclose()"})
 
-    drive(main())
+        drive(main(), cancel_at=cancel_at)
+        nsusp = CTX.suspensions
+        run_finalizers()
+        if CTX.foreign:
+            viols.append({"key": "groupby/foreign-suspension", "msg": CTX.foreign[0]})
+        return info, nsusp
+
+    info, res = one()
     stats["scenarios"] += 1
     stats["scn_groupby"] += 1
+    evals = 1
     if not info.get("groups"):
         stats["groupby_closed_unstarted"] += 1
-    if CTX.foreign:
-        viols.append({"key": "groupby/foreign-suspension", "msg": CTX.foreign[0]})
-    return {"violations": viols, "evals": 1, "nontrivial": True,
-            "sig": tuple(map(str, (keys, case["key"], case["flav"], case["ops"])))}
+    if info["raised"]:
+        stats["groupby_closed_after_fault"] += 1
+    if case.get("cancel") and case["flav"] != "async_gen":
+        # (an async generator source cancelled inside its own await is finished by the cancellation itself)
+        base, nsusp = one(susp=1)
+        for i in range(1, nsusp + 1):
+            inf, _ = one(susp=1, cancel_at=i)
+            evals += 1
+            if inf["cancelled"]:
+                stats["groupby_closed_after_cancel"] += 1
+    return {"violations": viols, "evals": evals, "nontrivial": True,
+            "sig": tuple(map(str, (keys, case["key"], case["flav"], case["ops"], fault, case.get("cancel"))))}
 
 
 def run_case(case, stats: Counter):
@@ -343,7 +390,7 @@ def run_case(case, stats: Counter):
 
 def finish(stats, tier):
     for need in ("scn_close", "scn_fault", "scn_athrow", "scn_exhaust", "scn_agg_fault", "scn_tee", "scn_groupby",
-                 "tee_all_children_done", "groupby_closed_unstarted"):
+                 "tee_all_children_done", "groupby_closed_unstarted", "groupby_closed_after_fault", "groupby_closed_after_cancel"):
         if not stats.get(need):
             return f"deciding counter {need} is zero"
     return None
